@@ -224,6 +224,20 @@ def with_fallbacks(draw, progs):
         if draw(st.booleans()):
             d['fallback'] = {'kind': draw(st.sampled_from(['list', 'fn'])),
                              'aliases': draw(st.lists(st.sampled_from(pool), min_size=1, max_size=2))}
+    # a renamed input kept next to its legacy source: the new input lists the legacy alias as fallback, and the operation
+    # reads the legacy one first and then the new one with the same arguments (each has its own recorded value)
+    plain = [k for k, d in enumerate(ins) if not d.get('resolver') and d['kind'] != 'property']
+    if plain and len(ins) < 4 and draw(st.sampled_from([False, True])):
+        k = draw(st.sampled_from(plain))
+        new_decl = copy.deepcopy(ins[k])
+        new_decl['alias'] = ins[k]['alias'] + '.renamed'
+        if not any(d['alias'] == new_decl['alias'] for d in ins):
+            new_decl['fallback'] = {'kind': draw(st.sampled_from(['list', 'fn'])), 'aliases': [ins[k]['alias']]}
+            ins.append(new_decl)
+            base = dict(t='in', a=7, b=8, usekw=False, beh='ret', name='n1', exc='Err')
+            pos = draw(st.integers(0, len(prog['steps'])))
+            prog['steps'].insert(pos, dict(base, i=len(ins) - 1, ret='NEW SOURCE'))
+            prog['steps'].insert(pos, dict(base, i=k, ret='LEGACY SOURCE'))
     # the same call made through another input (same arguments, other alias), before or after the original
     calls = [s for s in prog['steps'] if s['t'] == 'in']
     for _ in range(draw(st.integers(0, 2))):
